@@ -56,3 +56,29 @@ pub struct Secp256k1P;
 #[modulus = "4002409555221667393417789825735904156556882819939007885332058136124031650490837864442687629129015664037894272559787"]
 #[generator = "2"]
 pub struct Bls381Fq;
+
+// ---- unusual LIMB SHAPES (shape-dependent code generation: zero limbs, limb 1, all-ones limbs)
+
+// N = 3, (2^63 - 1) * 2^128 + 0x133: limbs [0x133, 0, 2^63 - 1] -> spare bit, plain CIOS, a zero interior limb
+#[derive(MontConfig)]
+#[modulus = "3138550867693340381577612344682894744587803114800249045299"]
+#[generator = "2"]
+pub struct Z191;
+
+// N = 4, 0x2000000000000001 * 2^192 + 229: limbs [229, 0, 0, 2^61 + 1] -> no-carry multiplication, two zero limbs
+#[derive(MontConfig)]
+#[modulus = "14474011154664524434223474861472669245494537506412736921034553445453175718117"]
+#[generator = "2"]
+pub struct Z254;
+
+// N = 4, (2^63 - 1) * 2^192 + 135: limbs [135, 0, 0, 2^63 - 1] -> spare bit, plain CIOS, two zero limbs
+#[derive(MontConfig)]
+#[modulus = "57896044618658097705508390768957273162799202909612615603626436559492530307207"]
+#[generator = "2"]
+pub struct Z255;
+
+// N = 2, (2^60 - 1) * 2^64 + 1: limbs [1, 2^60 - 1] -> no-carry multiplication, low limb 1, high limb all ones
+#[derive(MontConfig)]
+#[modulus = "21267647932558653948014168890775961601"]
+#[generator = "2"]
+pub struct P124;
